@@ -167,17 +167,24 @@ class ToBits(_BitsCfg):
 
 @register
 class FromBits(Contract):
-    vprops = ("C05", "C16")
+    vprops = ("C05", "C16", "C04")
     sprops = ("C02", "C16")
     """LinComb.from_bits(bits): sum_i 2^i * bits[i]; linear, no events."""
     name = "pysnark.runtime:LinComb.from_bits"
 
     def configs(self, tier):
-        return [dict(mode="plain", n=n) for n in (0, 1, 3, 8)]
+        # entries="small": from_bits is linear and does not ask its entries to be bits (its callers hand it products
+        # and sums): entries in [0, 4) overlap each other's positions
+        return [dict(mode="plain", n=n) for n in (0, 1, 3, 8)] + [dict(mode=m, n=n, entries="small") for m in ("plain", "g0") for n in (2, 3)]
 
     def setup(self, c, cfg):
         apply_mode(c, cfg["mode"])
-        bits = [c.operand_bool("b%d" % i) for i in range(cfg["n"])]
+        if cfg.get("entries") == "small":
+            bits = [c.operand("e%d" % i) for i in range(cfg["n"])]
+            for b in bits:
+                cur().assume(And(term(b.value) >= 0, term(b.value) < 4))
+        else:
+            bits = [c.operand_bool("b%d" % i) for i in range(cfg["n"])]
         return c.LinComb.from_bits, (bits,), {}
 
     def use_stub(self, c, *a):
@@ -1493,6 +1500,41 @@ class PowSecret(Contract):
         return {"V.value_mod_p": cases, "V.inv": c.inv(r),
                 "V.python": Implies(isg(c), exact),
                 "V.python_nonnegative_base": Implies(And(isg(c), xv >= 0, _ipow(xv, (1 << n) - 1) < c.p), exact)}
+
+
+@register
+class RPowSecret(Contract):
+    """k ** e for a PLAIN base k and a secret exponent 0 <= e < 2^bitlength (the reflected operator): k**e as Python
+    computes it, for every base -- 0 ** 0 is 1, 1 ** e is 1 -- modulo the field prime, and exactly where it fits."""
+    name = "pysnark.runtime:LinComb.__rpow__"
+    modules = ("pysnark.runtime", "pysnark.boolean", "pysnark.fixedpoint", "pysnark.branching")
+    vprops = ("C05",)
+    sprops = ()
+    tprops = ("C06",)
+
+    def configs(self, tier):
+        return [dict(mode=m, bits=2, base=k) for k in (0, 1, 2, 3) for m in ("plain", "g1")]
+
+    def setup(self, c, cfg):
+        apply_mode(c, cfg["mode"], bitlength=cfg["bits"])
+        return c.LinComb.__rpow__, (c.operand("e"), cfg["base"]), {}
+
+    def pre(self, c, e, k):
+        return [(1 << (c.bitlength + 1)) < c.p]
+
+    def use_stub(self, c, *a, **k):
+        return False
+
+    def raises(self, c, e, k):
+        n = c.bitlength
+        ev = c.v(e)
+        return [(AssertionError, And(Not(ie(c)), Or(ev < 0, ev >= (1 << n))))]
+
+    def post(self, c, r, e, k):
+        n = c.bitlength
+        ev = c.v(e)
+        return {"V.python": Implies(isg(c), And(*[Implies(ev == j, Eq(c.v(r), term(k ** j))) for j in range(1 << n)])),
+                "V.inv": c.inv(r)}
 
 
 class _ShiftSecret(Contract):
